@@ -3,6 +3,7 @@ import Iec.Model.Cli104
 import Iec.Gen.Consts104
 import Iec.Lemmas.Srv104Vr
 import Iec.Lemmas.Cli104Vr
+import Iec.Lemmas.Srv104Ns
 /-
 C03 — CS104 wire format and send/receive sequence numbering are exact.
 
@@ -18,7 +19,7 @@ Theorems on the server model `Iec.Srv104` (every frame the model writes is produ
 N(R) = V(R), V(S) advances by exactly one mod 32768 iff the write succeeded - so the n-th
 I-frame of a connection carries (s0 + n - 1) mod 32768 from any start s0, the wrap being
 the `% 32768`; stated over histories as `nth_iframe_ns`), `sendS_spec`, `u_frames`.  V(R) advances exactly when both sequence checks
-pass: C05 `delivery` (same code path); over histories: `nr_is_accepted_count` / `vr_is_start_plus_accepted`
+pass: C05 `delivery` (same code path); on the wire over every history of the whole server: `ns_counts_up_on_the_wire` (`Lemmas/Srv104Ns.lean`); over message histories: `nr_is_accepted_count` / `vr_is_start_plus_accepted`
 (`Lemmas/Srv104Vr.lean`: V(R) changes only when an I-format APDU passes both sequence checks).  Client role (`Iec.Cli104`, tied by its own differential):
 `client_sendI_spec`, `client_sendS_spec`, `client_u_frames` - the same laws for cs104_connection.c; over histories
 `client_nr_is_accepted_count` (`Lemmas/Cli104Vr.lean`).
@@ -152,6 +153,27 @@ theorem nr_is_accepted_count (s : Slave) (i : Nat) (hi : i < s.conns.length) (ms
 theorem vr_is_start_plus_accepted (s : Slave) (i : Nat) (hi : i < s.conns.length) (ms : List (List Nat))
     (hv : (s.conn i).vr < 32768) :
     ((recvAll s i ms).conn i).vr = ((s.conn i).vr + acceptedCount s i ms) % 32768 := vr_counts_accepted ms s i hi hv
+
+/-! ### N(S) on the wire, every history of the server -/
+
+/-- **the I-format APDUs of a connection are numbered 0, 1, 2, ... modulo 32768 on the wire.** From a freshly created
+server, after any sequence of ticks (accept, reception, transmission of events and replies, time-outs, reaping), enqueues
+and environment events: take ANY I-format APDU in the wire log, on slot `c`; its N(S) field equals the number of I-format
+APDUs written on that slot before it since the slot's last OPENED event, modulo 32768 (`ifr`). So consecutive I-format APDUs
+of one connection carry consecutive sequence numbers, the first one 0, the wrap being the `% 32768`; and V(S) of every
+connection in use is that count. -/
+theorem ns_counts_up_on_the_wire (p : Params) (gs : List (String × List (Bool × List Nat))) (ops : List LOp) :
+    (∀ l1 c b l2, (ops.foldl LOp.apply (create p gs)).log = l1 ++ Obs.tx c b :: l2 → isI b → frameNS b = ifr l1 c % 32768) ∧
+    (∀ j, ((ops.foldl LOp.apply (create p gs)).conn j).isUsed = true →
+      ((ops.foldl LOp.apply (create p gs)).conn j).vs = ifr (ops.foldl LOp.apply (create p gs)).log j % 32768) :=
+  ⟨(run_ninv p gs ops).2, (run_ninv p gs ops).1⟩
+
+/-- non-vacuity on a concrete history: connect, STARTDT act, two events with k = 2 - the two I-format APDUs on the wire
+carry N(S) 0 and 1 -/
+example : let s := ([LOp.env (lenvPending {}), .tick, .env (lenvFeed 0 [0x68, 4, 7, 0, 0, 0]), .tick,
+      .enqueue [1, 1, 3, 0, 1, 0, 5, 0, 0, 1], .tick, .enqueue [1, 1, 3, 0, 1, 0, 6, 0, 0, 1], .tick] : List LOp).foldl LOp.apply (create lifeDemoParams [])
+    s.log.filterMap (fun o => match o with | .tx _ f => if f.getD 2 1 % 2 = 0 then some (frameNS f) else none | _ => none) = [0, 1] ∧
+    ifr s.log 0 = 2 := by decide
 
 /-! ### client role (cs104_connection.c) -/
 section Client
